@@ -690,6 +690,12 @@ func reencodeOracle(t *dtarget, v reflect.Value, n int, in []byte) (string, stri
 	if kind == "" {
 		return "", ""
 	}
+	// the attribution is searched for the first 8 failures of the same (entry point, kind); after
+	// that it is taken over (the search costs several encode/decode rounds per failing case)
+	ck := t.Name + "|" + kind
+	if c := culpritCache[ck]; c != nil && c.n >= 8 {
+		return c.sig, detail
+	}
 	ref, _, err := t.decode(in)
 	who := "generated-struct"
 	if t.Kind == "builtin" {
@@ -697,10 +703,28 @@ func reencodeOracle(t *dtarget, v reflect.Value, n int, in []byte) (string, stri
 	}
 	if err == nil {
 		if name, k2, d2 := culprit(ref, 0); name != "" {
+			noteCulprit(ck, "reencode/"+name+"/"+k2)
 			return "reencode/" + name + "/" + k2, d2 + "; reached through " + t.Name + " with input " + fmt.Sprintf("%x", clipBytes(in)) + " (" + kind + ": " + detail + ")"
 		}
 	}
+	noteCulprit(ck, "reencode/"+who+"/"+kind)
 	return "reencode/" + who + "/" + kind, detail
+}
+
+type culpritEntry struct {
+	sig string
+	n   int
+}
+
+var culpritCache = map[string]*culpritEntry{}
+
+func noteCulprit(ck, sig string) {
+	c := culpritCache[ck]
+	if c == nil || c.sig != sig {
+		culpritCache[ck] = &culpritEntry{sig: sig, n: 1}
+		return
+	}
+	c.n++
 }
 
 // reencodeCheck applies the oracle to one value with the given decoder; it returns (failure kind, detail).
@@ -1245,7 +1269,8 @@ func gridElem(typ byte, i int) []byte {
 func executorMain(prop string) {
 	start, _ := strconv.Atoi(os.Getenv("VERIF_CODEC_START")) // index into this shard's unit list
 	skip := map[int]bool{}
-	for _, s := range strings.Split(os.Getenv("VERIF_CODEC_SKIP"), ",") {
+	skipList, _ := os.ReadFile(os.Getenv("VERIF_CODEC_SKIPFILE"))
+	for _, s := range strings.Split(string(skipList), ",") {
 		if s != "" {
 			n, _ := strconv.Atoi(s)
 			skip[n] = true
@@ -1466,6 +1491,7 @@ func superviseShard(prop string, s evid.ShardInfo, w *evid.Run, p *plan, assign 
 	pub, _ := syscall.Mmap(int(f.Fd()), 0, 4096, syscall.PROT_READ|syscall.PROT_WRITE, syscall.MAP_SHARED)
 	f.Close()
 	os.WriteFile(memoPath, nil, 0o644)
+	skipPath := filepath.Join(dir, "skip")
 	unitsPath := filepath.Join(dir, "units.json")
 	myUnits := make([]unit, len(mine))
 	for k, i := range mine {
@@ -1508,9 +1534,10 @@ func superviseShard(prop string, s evid.ShardInfo, w *evid.Run, p *plan, assign 
 			continue
 		}
 		binary.LittleEndian.PutUint32(pub[0:], 0xffffffff)
+		os.WriteFile(skipPath, []byte(strings.Join(skip, ",")), 0o644)
 		cmd := exec.Command("/proc/self/exe", os.Args[1:]...) // survives a rebuild of the binary by another run
 		cmd.Env = append(os.Environ(), "VERIF_CODEC_EXEC=1", "VERIF_CODEC_UNITS="+unitsPath,
-			"VERIF_CODEC_START="+strconv.Itoa(start), "VERIF_CODEC_SKIP="+strings.Join(skip, ","), "VERIF_CODEC_PUB="+pubPath, "VERIF_CODEC_MEMO="+memoPath, "GOMAXPROCS=2")
+			"VERIF_CODEC_START="+strconv.Itoa(start), "VERIF_CODEC_SKIPFILE="+skipPath, "VERIF_CODEC_PUB="+pubPath, "VERIF_CODEC_MEMO="+memoPath, "GOMAXPROCS=2")
 		hw := &headWriter{max: 24 << 10}
 		cmd.Stderr = hw
 		stdout, _ := cmd.StdoutPipe()
